@@ -128,6 +128,9 @@ def run_live(shard, rec, B):
     for t in range(shard["n"]):
         N = int(rng.integers(2, 7)) if B.name == "np" else int(rng.integers(2, 5))
         cls = classes[t % len(classes)]
+        if t % 5 == 0:
+            compose_history(rec, B, rng, N, named)
+            wider_register(rec, B, rng, N, named)
         circ = CC.new_circuit(B, cls, N)
         prog, inserted = [], []
         hist = []
@@ -146,7 +149,21 @@ def run_live(shard, rec, B):
                 prog.append(s)
                 inserted.append(g)
                 hist.append(["take", PR.describe(s)["kind"], s["qubits"]])
+            # a generator gate that is already in the circuit gets a new generator through the public setter
+            gen_idx = [i for i, s_ in enumerate(prog) if s_["kind"] in ("setgen",)]
+            if gen_idx and rng.integers(3) == 0:
+                i_ = gen_idx[int(rng.integers(len(gen_idx)))]
+                newG = gen.rand_nonid(rng, len(prog[i_]["qubits"]))
+                newP = 2 * int(rng.integers(2))
+                ok, _ = rec.attempt("live.retarget", hist[-6:], lambda: inserted[i_].set_generator(B.Pauli(newG, newP)))
+                if ok:
+                    prog[i_] = dict(prog[i_], G=newG, PG=newP)
+                    hist.append(["set_generator", i_])
+                    if compiled is None:
+                        pass
             action = int(rng.integers(4))
+            if gen_idx and compiled is not None and hist and hist[-1][0] == "set_generator" and action in (0, 3):
+                action = 1 if compiled == "circuit" else 2     # documented: recompile after changing a compiled circuit
             if action == 1 or (compiled == "circuit" and action != 2):
                 ok, _ = rec.attempt("live.compile", hist[-6:], (lambda: circ.compile(N)) if cls == "CliffordCircuit" else (lambda: circ.compile()))
                 compiled = "circuit"
@@ -220,3 +237,57 @@ def run_big(shard, rec, B):
                         if ok:
                             lg, lp = B.gsps(obj)
                             rec.check(sub, np.array_equal(lg, eg) and np.array_equal(lp, ep % 4), dict(desc, cls=cls, variant=variant, comp=comp), True)
+
+
+def _act(B, prog, N, gs, ps):
+    om = PR.program_map(B, prog, N)
+    return O.map_image_list(om[0], om[1], gs, ps)
+
+
+def compose_history(rec, B, rng, N, named):
+    """E.compose(Bc) for an empty or non-empty E, then E keeps growing (and is compiled): the argument circuit Bc must go on
+    acting as its own gates only, and E as the concatenation."""
+    pe = [] if rng.integers(2) else PR.rand_program(rng, N, int(rng.integers(1, 4)), named=named)
+    pb = PR.rand_program(rng, N, int(rng.integers(1, 6)), named=named)
+    more = PR.rand_program(rng, N, int(rng.integers(1, 5)), named=named)
+    E, _ = CC.build(B, "CliffordCircuit", pe, N) if pe else (CC.new_circuit(B, "CliffordCircuit", N), [])
+    Bc, _ = CC.build(B, "CliffordCircuit", pb, N)
+    desc = {"N": N, "E": [PR.describe(s)["kind"] for s in pe], "B": [PR.describe(s) for s in pb], "then": [PR.describe(s) for s in more]}
+    ok, _ = rec.attempt("compose.history", desc, lambda: E.compose(Bc))
+    if not ok:
+        return
+    for s_ in more:
+        E.take(PR.make_gate(B, s_, N))
+    if rng.integers(2):
+        E.compile(N)
+    gs, ps = gen.rand_list(rng, 5, N), rng.integers(0, 4, 5)
+    for nm, circ, pr in (("argument", Bc, pb), ("result", E, pe + pb + more)):
+        obj = B.PauliList(gs.copy(), ps.copy())
+        ok, _ = rec.attempt("compose.history", desc, lambda: circ.forward(obj))
+        if ok:
+            eg, ep = _act(B, pr, N, gs, ps)
+            lg, lp = B.gsps(obj)
+            rec.check("compose.history", np.array_equal(lg, eg) and np.array_equal(lp, ep % 4), dict(desc, observed_circuit=nm), True,
+                      expected=[O.show(a, b) for a, b in zip(eg, ep)], observed=[O.show(a, b) for a, b in zip(lg, lp)])
+
+
+def wider_register(rec, B, rng, N, named):
+    """a circuit built for N qubits applied to objects on N+k qubits: uncompiled, and compiled with the explicit size compile(N+k)."""
+    prog = PR.rand_program(rng, N, int(rng.integers(1, 7)), named=named)
+    W = N + int(rng.integers(1, 3))
+    gs, ps = gen.rand_list(rng, 5, W), rng.integers(0, 4, 5)
+    # the oracle reads the same program on the wider register (full-register generators are padded with identities)
+    wprog = [dict(s_, G=np.concatenate([np.asarray(s_["G"]), np.zeros(2 * (W - N), dtype=np.int64)])) if s_["kind"] == "gen" else s_ for s_ in prog]
+    eg, ep = _act(B, wprog, W, gs, ps)
+    desc = {"N": N, "applied_to": W, "program": [PR.describe(s) for s in prog]}
+    for comp in ("none", "compile(W)"):
+        circ, _ = CC.build(B, "CliffordCircuit", prog, N)
+        if comp != "none":
+            ok, _ = rec.attempt("wider." + comp, desc, lambda: circ.compile(W))
+            if not ok:
+                continue
+        obj = B.PauliList(gs.copy(), ps.copy())
+        ok, _ = rec.attempt("wider." + comp, desc, lambda: circ.forward(obj))
+        if ok:
+            lg, lp = B.gsps(obj)
+            rec.check("wider." + comp, np.array_equal(lg, eg) and np.array_equal(lp, ep % 4), dict(desc, comp=comp), True)
